@@ -30,8 +30,17 @@ MkLexeme(ast) ==
     LET r == R!CompileTop(ast) IN [rx |-> r, live |-> R!LiveOf(r), reps |-> R!Reps(r)]
 
 DeadSt == [dead |-> TRUE, chart |-> << {} >>, cur |-> <<>>, started |-> FALSE]
-StartLex(L, chart) ==
-    [dead |-> FALSE, chart |-> chart, cur |-> [i \in NextToks(chart) |-> L[i].rx], started |-> FALSE]
+
+(* `%ignore`: lexeme id Skip (-1 = none).  It is possible in a row whenever "the grammar didn't finish" (some other    *)
+(* lexeme may follow) except in the very first row (allow_initial_skip is off by default); when the lexemes that   *)
+(* end together include it, the whole set counts as ignored (parser.rs scan(): `if set contains a skip lexeme`) and *)
+(* the item set stays as it is.                                                                                   *)
+NoSkip == -1
+StartLexS(L, chart, skip) ==
+    LET want == NextToks(chart)
+        ids == IF skip # NoSkip /\ want # {} /\ Len(chart) > 1 THEN want \cup {skip} ELSE want
+    IN  [dead |-> FALSE, chart |-> chart, cur |-> [i \in ids |-> L[i].rx], started |-> FALSE]
+StartLex(L, chart) == StartLexS(L, chart, NoSkip)
 
 Derive(L, cur, b) ==
     LET d == [i \in DOMAIN cur |-> R!D(cur[i], b)]
@@ -48,31 +57,43 @@ Scan(G, chart, S) ==
         scanned == {Advance(it) : it \in {x \in chart[k] : NextSym(x)[1] = "tk" /\ NextSym(x)[2] \cap S # {}}}
     IN  Append(chart, IF scanned = {} THEN {} ELSE Close(G, chart, k, scanned, scanned))
 
-Emit(G, L, chart, S) == LET c2 == Scan(G, chart, S) IN IF Dead(c2) THEN DeadSt ELSE StartLex(L, c2)
+(* after an ignored lexeme the row (item set) is kept, pushed once more so that "first row" stays recognisable *)
+EmitS(G, L, chart, S, skip) ==
+    IF skip # NoSkip /\ skip \in S THEN StartLexS(L, Append(chart, chart[Len(chart)]), skip)
+    ELSE LET c2 == Scan(G, chart, S) IN IF Dead(c2) THEN DeadSt ELSE StartLexS(L, c2, skip)
 
-AfterByte(G, L, chart, cur2) ==
-    IF AllEnded(L, cur2) THEN Emit(G, L, chart, DOMAIN cur2)
+AfterByteS(G, L, chart, cur2, skip) ==
+    IF AllEnded(L, cur2) THEN EmitS(G, L, chart, DOMAIN cur2, skip)
     ELSE [dead |-> FALSE, chart |-> chart, cur |-> cur2, started |-> TRUE]
 
-StepByte(G, L, st, b) ==
+StepByteS(G, L, st, b, skip) ==
     IF st.dead THEN st
     ELSE LET c2 == Derive(L, st.cur, b) IN
-         IF DOMAIN c2 # {} THEN AfterByte(G, L, st.chart, c2)
+         IF DOMAIN c2 # {} THEN AfterByteS(G, L, st.chart, c2, skip)
          ELSE LET acc == IF st.started THEN Matching(st.cur) ELSE {} IN
               IF acc = {} THEN DeadSt
-              ELSE LET ch2 == Scan(G, st.chart, acc) IN
-                   IF Dead(ch2) THEN DeadSt
-                   ELSE LET c3 == Derive(L, StartLex(L, ch2).cur, b) IN
-                        IF DOMAIN c3 = {} THEN DeadSt ELSE AfterByte(G, L, ch2, c3)
+              ELSE LET s2 == EmitS(G, L, st.chart, acc, skip) IN
+                   IF s2.dead THEN DeadSt
+                   ELSE LET c3 == Derive(L, s2.cur, b) IN
+                        IF DOMAIN c3 = {} THEN DeadSt ELSE AfterByteS(G, L, s2.chart, c3, skip)
 
-RECURSIVE StepBytes(_, _, _, _)
-StepBytes(G, L, st, w) == IF w = <<>> \/ st.dead THEN st ELSE StepBytes(G, L, StepByte(G, L, st, Head(w)), Tail(w))
+StepByte(G, L, st, b) == StepByteS(G, L, st, b, NoSkip)
 
-LexAccepting(G, L, st, start) ==
+RECURSIVE StepBytesS(_, _, _, _, _)
+StepBytesS(G, L, st, w, skip) ==
+    IF w = <<>> \/ st.dead THEN st ELSE StepBytesS(G, L, StepByteS(G, L, st, Head(w), skip), Tail(w), skip)
+StepBytes(G, L, st, w) == StepBytesS(G, L, st, w, NoSkip)
+
+(* the input may end inside a lexeme iff the bytes so far match one; an ignored lexeme at the end leaves the row as it is *)
+LexAcceptingS(G, L, st, start, skip) ==
     /\ ~st.dead
     /\ IF st.started
-       THEN LET acc == Matching(st.cur) IN acc # {} /\ LET c2 == Scan(G, st.chart, acc) IN ~Dead(c2) /\ AcceptingChart(c2, start)
+       THEN LET acc == Matching(st.cur) IN
+            /\ acc # {}
+            /\ IF skip # NoSkip /\ skip \in acc THEN AcceptingChart(st.chart, start)
+               ELSE LET c2 == Scan(G, st.chart, acc) IN ~Dead(c2) /\ AcceptingChart(c2, start)
        ELSE AcceptingChart(st.chart, start)
+LexAccepting(G, L, st, start) == LexAcceptingS(G, L, st, start, NoSkip)
 
 (* bytes that do not kill the state *)
 LexNext(G, L, st) == {b \in 0..255 : ~StepByte(G, L, st, b).dead}
